@@ -121,7 +121,8 @@ fn gen11(ch: &mut Chooser, p: &P11) -> Case11 {
                 1 => format!("{tind}    {}();", id()),
                 2 => String::new(),
                 3 => format!("{tind}  "),
-                _ => format!("{tind}{}あ🧹;", id()),
+                4 => format!("{tind}{}(); // 開", id()),
+                _ => format!("{tind}  {}開", crate::gen::fullwidth(&id())),
             };
             lines.push(l);
             removed.push(false);
@@ -233,7 +234,8 @@ struct Blk {
 
 struct P12 {
     units: Vec<&'static str>,
-    max_further: usize,
+    /// bound on the number of further inner lines, indexed by nesting depth - 1
+    max_further: Vec<usize>,
     max_depth: usize,
     max_extra_indent: usize,
     mb: bool,
@@ -254,7 +256,7 @@ fn gen_blk(ch: &mut Chooser, p: &P12, unit: &str, t_units: usize, depth: usize, 
         text: format!("{i0}();"),
         id: i0,
     });
-    let further = 1 + ch.choose(p.max_further);
+    let further = 1 + ch.choose(p.max_further[(depth - 1).min(p.max_further.len() - 1)]);
     let mut used_special = false;
     for _ in 0..further {
         // kinds: code at indent 0..=F+extra, mb code, blank, nested range (ready/pending), nested unwrap
@@ -284,7 +286,7 @@ fn gen_blk(ch: &mut Chooser, p: &P12, unit: &str, t_units: usize, depth: usize, 
             let i = id(ctr);
             inner.push(Inner::Line {
                 w: unit.repeat(f_units),
-                text: format!("{i}あ🧹;"),
+                text: format!("{i}(); // 開"),
                 id: i,
             });
         } else if c == special_base || c == special_base + 1 {
@@ -318,7 +320,12 @@ fn gen_blk(ch: &mut Chooser, p: &P12, unit: &str, t_units: usize, depth: usize, 
 
 fn render_blk(b: &Blk, out: &mut Vec<String>) {
     out.push(format!("{}{}", b.t, open_tl(TO_EXPIRED, " unwrap-block")));
-    out.push(format!("{}if ({}) {{", b.t, b.wid.0));
+    // every other wrapper line ends in a multi-byte character
+    if b.wid.0.len() % 2 == 0 {
+        out.push(format!("{}if ({}) {{ // 開", b.t, b.wid.0));
+    } else {
+        out.push(format!("{}if ({}) {{", b.t, b.wid.0));
+    }
     for it in &b.inner {
         match it {
             Inner::Line { w, text, .. } => out.push(format!("{w}{text}")),
@@ -556,7 +563,8 @@ fn gen13(ch: &mut Chooser, p: &P13) -> Case13 {
     let mut id = |mb: bool| {
         ctr += 1;
         if mb {
-            format!("k{ctr}あ();")
+            // no ASCII byte at all: a line of multi-byte characters only
+            crate::gen::fullwidth(&format!("k{ctr}"))
         } else {
             format!("k{ctr}();")
         }
@@ -726,8 +734,8 @@ pub fn run(r: &Report, prop: &str) {
         "C11" => {
             r.set_rule("all documents: {0,1,2 lines before (code / code+blank)} x {ready, pending, skip} unwrap element x tag indent {0,1} x {m = 0..M lines between the tags, each from the line-kind alphabet (code, indented code, blank, whitespace-only, multi-byte); single-line form} x optional nested ready/pending default-strategy element at every inner position x 0..2 lines after x final newline; oracle on non-blank lines (leading whitespace stripped) by construction, or byte identity when the element must stay untouched; non-trivial = distinct documents with m in 1..3, a blank wrapper line, or the single-line form");
             let p = match r.tier {
-                Tier::Quick => P11 { max_m: 4, kinds: 5 },
-                Tier::Thorough => P11 { max_m: 6, kinds: 5 },
+                Tier::Quick => P11 { max_m: 4, kinds: 6 },
+                Tier::Thorough => P11 { max_m: 6, kinds: 6 },
             };
             let single = count_choices(|ch| gen11(ch, &p));
             let counted = explore_choices(
@@ -762,8 +770,8 @@ pub fn run(r: &Report, prop: &str) {
         "C12" => {
             r.set_rule("all unwrap layouts: indentation unit {2 spaces, 4 spaces, tab} x tag indent T 0..2 units x first inner line indent F in max(T-1,0)..T+2 x 1..K further inner lines each {code at indent 0..F+E units, multi-byte code, blank, nested ready/pending default-strategy element, nested unwrap-block (to depth D)} x 0..2 lines before the block; expectation per surviving inner line from the dedent rule (shift = max(F-T,0), never left of column T, whitespace only), nested blocks by sequential composition, asserted where inside-out and outside-in composition agree; non-trivial = distinct layouts with a positive shift and a line indented less than F or T, or depth >= 2, or block on line 1");
             let p = match r.tier {
-                Tier::Quick => P12 { units: vec!["  ", "\t"], max_further: 2, max_depth: 2, max_extra_indent: 1, mb: false },
-                Tier::Thorough => P12 { units: vec!["  ", "    ", "\t"], max_further: 3, max_depth: 3, max_extra_indent: 2, mb: true },
+                Tier::Quick => P12 { units: vec!["  ", "\t"], max_further: vec![2, 2], max_depth: 2, max_extra_indent: 1, mb: false },
+                Tier::Thorough => P12 { units: vec!["  ", "    ", "\t"], max_further: vec![3, 2, 1], max_depth: 3, max_extra_indent: 2, mb: true },
             };
             let ambiguous = std::sync::atomic::AtomicU64::new(0);
             let counted = explore_choices(
@@ -772,6 +780,9 @@ pub fn run(r: &Report, prop: &str) {
                 || r.local(),
                 |l: &mut Local, c: Case12, tr| {
                     l.eval();
+                    if std::env::var("MC_COUNT_ONLY").is_ok() {
+                        return;
+                    }
                     l.transition(tr.len() as u64);
                     let h = hash64(&[c.src.as_bytes()]);
                     l.state(h);
